@@ -106,7 +106,10 @@ class ByNeg:
     """sort key, picklable-free (ops are replayed by name)."""
 
 
-KEYFUNCS = {None: None, "neg": lambda x: -x, "mod2": lambda x: x % 2}
+KEYFUNCS = {None: None, "neg": lambda x: -x, "mod2": lambda x: x % 2,
+            # keys that cannot all be compared with each other: the sort
+            # fails half-way through its comparisons
+            "clash": lambda x: "s" if x % 3 == 2 else x}
 
 
 def do(lst, op, validated=None):
@@ -317,6 +320,23 @@ def step(ctx, mode, tl, rec, ref, op, tag):
         elif exc not in acc:
             bad("exc-class", "raised %s, list raises %s" % (
                 exc.__name__, sorted(c.__name__ for c in acc)))
+        if op[0] == "sort" and after != before:
+            # a sort whose comparisons fail may leave the built-in list
+            # re-ordered; then this is a change like any other: a
+            # permutation, announced by exactly one faithful notification
+            if sorted(map(repr, after)) != sorted(map(repr, before)):
+                bad("failed-sort-contents", "a failing sort left %r" % after)
+            elif not bare and len(evs) != 1:
+                bad("failed-sort-silent", "a failing sort re-ordered the "
+                    "contents to %r and emitted %d notification(s)"
+                    % (after, len(evs)))
+            elif not bare:
+                err = check_event(before, after, evs[0][:3])
+                if err:
+                    bad("event", err)
+            ref[:] = after
+            ctx.nontriv((mode, before, op))
+            return good
         if after != before:
             bad("failed-op-mutated", "failing operation changed contents")
         if evs or any(rec.extra.values()):
@@ -432,7 +452,8 @@ def ops_for(mode, n, tier, light=False):
         ops.append(("remove", v))
     ops += [("clear",), ("reverse",), ("sort", None, False),
             ("sort", None, True), ("sort", "neg", False),
-            ("sort", "mod2", False), ("sort", "mod2", True)]
+            ("sort", "mod2", False), ("sort", "mod2", True),
+            ("sort", "clash", False), ("sort", "clash", True)]
     # type errors
     ops += [("setitem", "a", 100), ("delitem", "a"), ("insert", "a", 100),
             ("pop", "a"), ("extend", 5), ("iadd", 5), ("setitem",
@@ -627,7 +648,8 @@ def run_shard(ctx, shard, tier):
                 ops = [("remove", v) for v in range(n + 1)]
                 ops += [("reverse",), ("sort", None, False),
                         ("sort", None, True), ("sort", "neg", False),
-                        ("sort", "mod2", False), ("clear",), ("imul", 2),
+                        ("sort", "mod2", False), ("sort", "clash", False),
+                        ("sort", "clash", True), ("clear",), ("imul", 2),
                         ("imul", 0), ("pop",)]
                 ops += [("delitem", i) for i in range(-n, n)]
                 ops += [("setitem", i, contents[0]) for i in range(-n, n)]
